@@ -362,7 +362,7 @@ def rec_obj_remover(parent, child):
             return True
         if isinstance(obj, Collection):
             if rec_obj_remover(obj, child):
-                break
+                return True
     return None
 
 
